@@ -854,7 +854,7 @@ def _setup(shard):
 FACETS = [
     Facet("hill_solution", sol_case, check_solution, setup=_setup,
           rule="|n t| > 0.1 for some query (all three axes always carry position and velocity)",
-          quick=(12, 600), thorough=(24, 4000)),
+          quick=(12, 500), thorough=(24, 4000)),
     Facet("overlap", overlap_case, check_overlap, setup=_setup,
           rule="some query falls inside a thrust arc after a later-listed maneuver has started",
           quick=(6, 300), thorough=(12, 3000)),
